@@ -279,7 +279,7 @@ theorem C03.flags_perm_invariant_partial (w : World) (fuel : Nat) (req req' : Li
 /-- Negation witness of the full statement: group 0 = `{ka, x}` with linked index column `ka`.  Request `[x, ka]` loses
 the flag of `ka` (the index feature added while processing `x` is equal to it), request `[ka, x]` keeps it. -/
 theorem C03.flags_witness :
-    let w : World := { groups := [{ supported := [[107, 97], [120]], parents := [], index := [[107, 97]] }], filters := [] }
+    let w : World := { groups := [{ criteria := [[107, 97], [120]], supported := [[107, 97], [120]], parents := [], index := [[107, 97]] }], filters := [] }
     (processRequest w 2 [[120], [107, 97]]).map (fun c => flaggedOf c 0) = .ok [[120]] ∧
     (processRequest w 2 [[107, 97], [120]]).map (fun c => flaggedOf c 0) = .ok [[107, 97], [120]] := by
   decide
@@ -401,8 +401,8 @@ example : NoPrefixClash [[109, 99], [97]] [[98], [105, 100, 120]] ∧ NoSelfClas
 
 /-- `noAuxClash` holds for a request that mixes a dependency and a derived feature, with a filter on a non-requested column -/
 example :
-    let w : World := { groups := [{ supported := [[97], [98]], parents := [], index := [] },
-                                  { supported := [[122]], parents := [([122], [[97]])], index := [] }], filters := [[98]] }
+    let w : World := { groups := [{ criteria := [[97], [98]], supported := [[97], [98]], parents := [], index := [] },
+                                  { criteria := [[122]], supported := [[122]], parents := [([122], [[97]])], index := [] }], filters := [[98]] }
     noAuxClash w [[122], [97]] = true ∧
     (processRequest w 3 [[122], [97]]).map (fun c => (flaggedOf c 0, flaggedOf c 1)) = .ok ([[97]], [[122]]) := by decide
 
